@@ -175,10 +175,6 @@ Notation lower_bin := (Ops.lower_bin pow log10).
 Definition scalar_binop (op : binop) : bool :=
   match op with BConcat | BIndex | BSliceTo | BSliceFrom => false | _ => true end.
 
-(* the cell the property text names *)
-Definition div_byte_komma (op : binop) (a b : value) : bool :=
-  match op, a, b with BDiv, VB _, VK _ => true | _, _, _ => false end.
-
 Lemma small_byte_mod : forall y, 0 <= y < 256 -> y mod 2^64 = y.
 Proof. intros. apply Z.mod_small. lia. Qed.
 
@@ -255,12 +251,12 @@ Proof.
 Qed.
 
 Lemma div_correct : forall a b v,
-  wf a -> wf b -> div_byte_komma BDiv a b = false ->
+  wf a -> wf b ->
   fbin f_div a b = ROk v ->
   lower_div (repr a) (repr b) = LOk (repr v).
 Proof.
-  intros a b v Wa Wb NC H.
-  destruct a, b; cbn in Wa, Wb; try contradiction; cbn in NC; try discriminate NC; cbn in H; inv H;
+  intros a b v Wa Wb H.
+  destruct a, b; cbn in Wa, Wb; try contradiction; cbn in H; inv H;
     cbn [repr lower_div]; repeat rewrite tof_Z by assumption; reflexivity.
 Qed.
 
@@ -350,13 +346,13 @@ Proof.
 Qed.
 
 (* THE THEOREM for binary operators: typed (wf, scalar) -> defined (RefSem gives a value, i.e. no guard) ->
-   the emitted instruction computes RefSem's value; all operand values; one excluded cell. *)
+   the emitted instruction computes RefSem's value; all operators, operand types and operand values. *)
 Theorem bin_lowering_correct : forall op a b v,
-  wf a -> wf b -> scalar_binop op = true -> div_byte_komma op a b = false ->
+  wf a -> wf b -> scalar_binop op = true ->
   bin_op op a b = ROk v ->
   lower_bin op (repr a) (repr b) = LOk (repr v).
 Proof.
-  intros op a b v Wa Wb SC NC H.
+  intros op a b v Wa Wb SC H.
   destruct op; cbn [scalar_binop] in SC; try discriminate SC; cbn [RefSem.bin_op] in H; cbn [Ops.lower_bin].
   - (* And *) destruct a, b; try discriminate H; inv H. cbn. destruct b0, b; reflexivity.
   - (* Or *) destruct a, b; try discriminate H; inv H. cbn. destruct b0, b; reflexivity.
@@ -393,16 +389,11 @@ Proof.
   - (* Ge *) eapply cmp_correct; eauto using icmp_sge; reflexivity.
 Qed.
 
-(* the pinned tree is wrong in the excluded cell: 200 als Byte durch 2,0 *)
+(* regression witness of the repaired cell: 200 als Byte durch 2,0 is 100 *)
 Definition two_f : Z := 4611686018427387904.   (* 2.0 *)
-Theorem div_byte_komma_refuted :
-  exists a b v, wf a /\ wf b /\ bin_op BDiv a b = ROk v /\
-                lower_bin BDiv (repr a) (repr b) <> LOk (repr v).
-Proof.
-  exists (VB 200), (VK two_f), (VK (f_div (f_of_Z 200) two_f)).
-  split; [cbn; lia|]. split; [vm_compute; reflexivity|]. split; [reflexivity|].
-  vm_compute; intros C; discriminate C.
-Qed.
+Example div_byte_komma_witness :
+  lower_bin BDiv (repr (VB 200)) (repr (VK two_f)) = LOk (repr (VK (f_of_Z 100))).
+Proof. vm_compute. reflexivity. Qed.
 
 (* ---- unary operators ---------------------------------------------------------------------------- *)
 Notation un_op := (RefSem.un_op).
